@@ -36,6 +36,13 @@ func GenDaemon(prop string, seed uint64, tier string) *DaemonScenario {
 		}
 		return sc
 	}
+	if prop == "C14" && seed%6 == 5 {
+		// what lying and stalling peers stream to a node that follows or repairs a chain is hostile input too:
+		// a panic there kills the process like any other
+		sc := GenDaemon("C10", seed, tier)
+		sc.Prop = "C14"
+		return sc
+	}
 	if prop == "C01" && seed%4 == 3 {
 		// the store of a follower and of a node repairing its chain is filled by peers alone, some of them lying
 		sc := GenDaemon("C10", seed, tier)
